@@ -429,6 +429,32 @@ def _child(conn, o, specfuns, fuel, strategy):
     conn.close()
 
 
+_SIMP = {}
+
+
+def _simp_id(h):
+    k = h.get_id()
+    if k not in _SIMP:
+        try:
+            _SIMP[k] = (h, z3.simplify(h).get_id())  # (the term is kept alive: ids are reused after collection)
+        except z3.Z3Exception:
+            _SIMP[k] = (h, k)
+    return _SIMP[k][1]
+
+
+def _is_a_hypothesis(o):
+    """The goal (already simplified by `oblige`), or each of its conjuncts, is literally one of the path's hypotheses once
+    that is simplified the same way: an invariant conjunct the path did not touch.  No solver needed."""
+    parts = o.goal.children() if z3.is_and(o.goal) else [o.goal]
+    if not parts:
+        return False
+    ids = set()
+    for h in o.hyps:
+        ids.add(h.get_id())
+        ids.add(_simp_id(h))
+    return o.goal.get_id() in ids or all(g.get_id() in ids for g in parts)
+
+
 def discharge_all(obls, specfuns, fuel=2, timeout_ms=10000, progress=None, jobs=None, strategies=None):
     """Discharge every obligation: one fork()ed child per (obligation, strategy) -- the z3 terms are shared
     copy-on-write -- at most `jobs` at a time, each under a hard wall-clock deadline (z3 occasionally ignores its
@@ -441,6 +467,8 @@ def discharge_all(obls, specfuns, fuel=2, timeout_ms=10000, progress=None, jobs=
     for i, o in enumerate(obls):
         if o.meta.get("trivial"):
             out[i] = discharge(o, specfuns)
+        elif _is_a_hypothesis(o):
+            out[i] = {"status": "proved", "backend": "syntactic (goal is a hypothesis up to simplification)", "fuel": 0, "ms": 0, "strategy": "syntactic"}
         else:
             pending.append((i, 0))
     ctx = mp.get_context("fork")
@@ -463,6 +491,7 @@ def discharge_all(obls, specfuns, fuel=2, timeout_ms=10000, progress=None, jobs=
             out[i] = r
             if r["status"] != "proved":
                 failed.append(i)
+                failed_classes[klass(i)] = failed_classes.get(klass(i), 0) + 1
             if progress:
                 progress(obls[i], r)
         else:
@@ -472,14 +501,24 @@ def discharge_all(obls, specfuns, fuel=2, timeout_ms=10000, progress=None, jobs=
             if strategies[nxt][0] == "cex" and out[i]["status"] == "refuted":
                 out[i]["ms"] = spent[i]
                 failed.append(i)
+                failed_classes[klass(i)] = failed_classes.get(klass(i), 0) + 1
                 if progress:
                     progress(obls[i], out[i])
             else:
                 pending.append((i, nxt))
 
+    def klass(i):
+        return re.sub(r"#\d+|\[\d+\]", "#", obls[i].name)
+    failed_classes = {}
+
     while pending or running:
         while pending and len(running) < jobs:
             i, k = pending.pop(0)
+            if failed_classes.get(klass(i), 0) >= 3 and k == 0:
+                # three obligations of this class (same clause, other paths) have already failed: the verdict for the unit is
+                # settled and the remaining instances are not worth the solver's whole ladder
+                out[i] = {"status": "unknown", "backend": "not run: three instances of this obligation class already failed", "fuel": None, "ms": 0, "strategy": None}
+                continue
             pc, cc = ctx.Pipe(duplex=False)
             p = ctx.Process(target=_child, args=(cc, obls[i], specfuns, fuel, strategies[k]))
             p.start()
